@@ -2,7 +2,7 @@
 import ast
 
 from ..core.db import AnalysisError, norm_stmt, walk_no_nested
-from ..core.interp import Interp, Const, Tup, Unknown, Obj
+from ..core.interp import Interp, Const, Tup, Unknown, Obj, Value
 from ..domains.origin import OriginDomain, Og, Real, Ix, half as ohalf
 from . import c04
 from .purity import memo_completeness, input_mutations
@@ -278,6 +278,158 @@ def inventory_rules(run, db):
                   '%s does not take the real part of the inverse transform on the paths %s' % (f.name, noreal[:3]), f.loc())
 
 
+def otf_products_origin(run, db):
+    """mtf / ptf / otf_from_psf decided in ORIGIN for both parities: a centred PSF gives a product whose DC sample sits at n//2 with no
+    phase ramp, that was normalised by its own DC sample (division, or subtraction for a phase), through exactly one forward transform,
+    and that is the modulus / angle / value of the spectrum as its name says.  Index arithmetic on the shape is followed exactly
+    (n//2, floor(n/2), ceil(n/2) differ for odd n)."""
+    from ..domains.origin import Ix, half
+    decided = 0
+
+    class LenTok(Value):
+        pass
+
+    class HalfReal(Value):
+        pass
+
+    class IxV(Value):
+        def __init__(self, ix):
+            self.ix = ix
+
+    class Samp(Value):
+        """one sample of an array: `dc` says whether it is that array's zero-frequency sample"""
+        def __init__(self, of, dc):
+            self.of, self.dc = of, dc
+
+    def mk(parity):
+        base = _dom(parity)
+        B = type(base)
+
+        class OtfDomain(B):
+            def _carry(self, res, src, **upd):
+                if isinstance(res, Og):
+                    note = dict(src.note) if isinstance(getattr(src, 'note', None), dict) else {}
+                    note.update(upd)
+                    res = Og(res.o, res.r, res.kind, note)
+                return res
+
+            def call_ext(self, dotted, args, kwargs, node):
+                last = dotted.rsplit('.', 1)[-1]
+                a0 = args[0] if args else None
+                if last == 'floor' and isinstance(a0, HalfReal):
+                    return IxV(half(self.p))
+                if last == 'ceil' and isinstance(a0, HalfReal):
+                    return IxV(Ix(1, self.p, self.p))
+                if last == 'int' and isinstance(a0, (IxV, HalfReal)):
+                    return a0 if isinstance(a0, IxV) else IxV(half(self.p))
+                if last in ('round', 'rint', 'around') and isinstance(a0, HalfReal):
+                    # n even: n/2 exactly.  n odd: a + 1/2 rounds to the even neighbour, which is a + 1 whenever a is odd
+                    return IxV(half(self.p) if self.p == 0 else Ix(1, 1, self.p))
+                if last == 'angle' and isinstance(a0, Og):
+                    return self._carry(Og(a0.o, a0.r, a0.kind), a0, tag='angle')
+                r = B.call_ext(self, dotted, args, kwargs, node)
+                if isinstance(r, Og) and isinstance(a0, Og):
+                    r = self._carry(r, a0, **({'tag': 'abs'} if last in ('abs', 'absolute') else {}))
+                return r
+
+            def getattr(self, v, name, node):
+                if isinstance(v, Og) and name == 'shape':
+                    return Tup([LenTok(), LenTok()])
+                r = B.getattr(self, v, name, node)
+                return self._carry(r, v) if isinstance(v, Og) else r
+
+            def method(self, v, name, args, kwargs, node):
+                r = B.method(self, v, name, args, kwargs, node)
+                return self._carry(r, v) if isinstance(v, Og) else r
+
+            def unary(self, op, a, node):
+                return a if isinstance(a, (Og, Real)) else None
+
+            def subscript(self, v, idx, node):
+                if isinstance(v, Og):
+                    items = idx.items if isinstance(idx, Tup) else [idx]
+                    ixs = []
+                    for x in items:
+                        if isinstance(x, IxV):
+                            ixs.append(x.ix)
+                        elif isinstance(x, Const) and isinstance(x.v, int) and not isinstance(x.v, bool):
+                            ixs.append(Ix(0, x.v, self.p))
+                        else:
+                            return Unknown('sample at an index that is not followed')
+                    if len(ixs) != 2:
+                        return Unknown('sample of a 2-D array with %d indices' % len(ixs))
+                    return Samp(v, all(i == v.o for i in ixs))
+                return B.subscript(self, v, idx, node)
+
+            def binop(self, op, a, b, node):
+                if isinstance(a, LenTok) and isinstance(b, Const) and b.v == 2:
+                    if isinstance(op, ast.FloorDiv):
+                        return IxV(half(self.p))
+                    if isinstance(op, ast.Div):
+                        return HalfReal()
+                if isinstance(a, IxV) and isinstance(b, Const) and isinstance(b.v, int) and isinstance(op, (ast.Add, ast.Sub)):
+                    return IxV(a.ix + Ix(0, b.v if isinstance(op, ast.Add) else -b.v, self.p))
+                if isinstance(a, Og) and isinstance(b, Samp) and isinstance(op, (ast.Div, ast.Sub)):
+                    note = a.note if isinstance(a.note, dict) else {}
+                    tag = note.get('tag')
+                    same = isinstance(b.of.note, dict) and b.of.note.get('tag') == tag or (not isinstance(b.of.note, dict) and tag is None)
+                    if not b.dc:
+                        how = 'not-dc'
+                    elif not same:
+                        how = 'foreign'
+                    elif isinstance(op, ast.Div):
+                        how = 'div' if tag in (None, 'abs') else 'bad'
+                    else:
+                        how = 'sub' if tag == 'angle' else 'bad'
+                    return self._carry(Og(a.o, a.r, a.kind), a, dcn=how)
+                if isinstance(a, (LenTok, HalfReal, IxV, Samp)) or isinstance(b, (LenTok, HalfReal, IxV, Samp)):
+                    return Real() if isinstance(a, (LenTok, Real, Const)) and isinstance(b, (LenTok, Real, Const)) else Unknown('index arithmetic that is not followed')
+                r = B.binop(self, op, a, b, node)
+                src = a if isinstance(a, Og) else b
+                return self._carry(r, src) if isinstance(src, Og) else r
+
+            def iterate(self, v, node):
+                return B.iterate(self, v, node)
+        dom = OtfDomain(parity)
+        dom.call_prysm = base.call_prysm
+
+        def hasattr_hook(dotted, args, kwargs, node, orig=dom.call_ext):
+            if dotted == 'builtins.hasattr' and args and isinstance(args[0], Og):
+                return Const(True)
+            if dotted == 'builtins.isinstance' and args and isinstance(args[0], Og):
+                return None
+            return orig(dotted, args, kwargs, node)
+        dom.call_ext = hasattr_hook
+        return dom
+    for nm, kind in (('mtf_from_psf', 'abs'), ('ptf_from_psf', 'angle'), ('otf_from_psf', None)):
+        fi = db.func(OT + nm)
+        for parity in (0, 1):
+            par = 'odd' if parity else 'even'
+            dom = mk(parity)
+            it = Interp(db, dom)
+            res = [p for p in it.run(fi, kwargs=lambda: {'psf': dom.centred(), 'dx': Real()}) if p.outcome == 'return']
+            if not res:
+                raise AnalysisError('%s: no returning path [%s]' % (nm, par))
+            for p in res:
+                v = p.value
+                d = v.attrs.get('data') if isinstance(v, Obj) else None
+                if not isinstance(d, Og):
+                    raise AnalysisError('%s: the data of the returned object is not followed [%s]: %r' % (nm, par, d))
+                note = d.note if isinstance(d.note, dict) else {}
+                nfft = [e['which'] for e in p.events if e['kind'] == 'fft']
+                decided += 1
+                run.check(d.o == ohalf(parity) and (d.r.is_zero() or kind == 'abs'), 'C15.dc', fi.qual, 'DC position [%s]' % par, 'the zero-frequency sample of %s sits at n//2 for %s sizes' % (nm, par),
+                          '%s returns an array whose zero-frequency sample sits at index %r for %s sizes, expected n//2 = %r (MTF != 1 there, and the product is not point-symmetric about n//2)' % (nm, d.o, par, ohalf(parity)), fi.loc())
+                how = note.get('dcn')
+                run.check(how in ('div', 'sub'), 'C15.dc', fi.qual, 'DC normalisation [%s]' % par, '%s is normalised by its own zero-frequency sample [%s]' % (nm, par),
+                          '%s is %s for %s sizes' % (nm, {None: 'not normalised by any sample', 'not-dc': 'normalised by a sample that is not its zero-frequency sample', 'foreign': "normalised by another array's sample",
+                                                           'bad': 'normalised the wrong way round for its kind (a phase is referenced by subtraction, a modulus / value by division)'}.get(how, how), par), fi.loc())
+                run.check(note.get('tag') == kind, 'C15.dc', fi.qual, 'which part of the spectrum [%s]' % par, '%s is the %s of the spectrum' % (nm, {'abs': 'modulus', 'angle': 'phase angle', None: 'complex value'}[kind]),
+                          '%s returns the %s of the spectrum' % (nm, {'abs': 'modulus', 'angle': 'phase angle', None: 'complex value'}[note.get('tag')]), fi.loc())
+                run.check(nfft == ['fft2'], 'C15.dc', fi.qual, 'one forward transform [%s]' % par, 'one forward transform', '%s applies the transforms %s' % (nm, nfft), fi.loc())
+    return decided
+
+
 def otf_rules(run, db):
     f = db.func(OT + 'transform_psf')
     for parity in (0, 1):
@@ -298,6 +450,16 @@ def otf_rules(run, db):
         d = v.items[0] if isinstance(v, Tup) else None
         run.check(isinstance(d, Og) and d.o == ohalf(parity) and d.r.is_zero(), 'C15.origin', f.qual, 'otf transform', 'centred PSF -> spectrum with DC at n//2 and no phase ramp [%s]' % par,
                   'transform_psf returns %r for %s sizes: the DC sample is not at n//2 (the index the MTF is normalised by) or a linear phase is left in the OTF' % (d, par), f.loc())
+    decided = otf_products_origin(run, db)
+    try:
+        _otf_products_norm(run, db)
+    except AnalysisError:
+        if not decided:
+            raise
+        # the products are not built on transform_psf + an index computed from the shape: the ORIGIN rule above has decided them
+
+
+def _otf_products_norm(run, db):
     # the three products: modulus / angle / value of the transform, each divided by ITS OWN sample at one index computed from the
     # shape (the value of that index is C04.centre's business) -- decided in NORM with transform_psf summarised
     from .common import norm_interp, capture_calls
